@@ -246,6 +246,21 @@ const FAM_PER_CASE: usize = 4;
 struct Families {
     vals: Vec<Val>,
 }
+
+/// Before the values of a case are judged the library is driven through values that are NOT positional decimals (and
+/// whose own rendering the statement does not pin down): whatever they leave behind - a scratch buffer, a cache entry -
+/// must not change how the numbers that follow are shown.
+fn prelude() {
+    const ODD: [&str; 6] = ["NaN", "inf", "-inf", "", "abc", "1e999"];
+    const CODES: [&str; 4] = ["0.0%", "0%", "0.00", "#,##0.0"];
+    for c in CODES {
+        for v in ODD {
+            let _ = via_helper(v, c);
+        }
+        let _ = via_cell(f64::NAN, Some(c));
+        let _ = via_cell(f64::INFINITY, Some(c));
+    }
+}
 impl Space for Families {
     fn len(&self) -> u64 {
         ((self.vals.len() + FAM_PER_CASE - 1) / FAM_PER_CASE) as u64
@@ -258,6 +273,7 @@ impl Space for Families {
     fn run(&self, i: u64, sink: &mut Sink) {
         let lo = i as usize * FAM_PER_CASE;
         let hi = (lo + FAM_PER_CASE).min(self.vals.len());
+        prelude();
         for (j, v) in self.vals[lo..hi].iter().enumerate() {
             for neg in [false, true] {
                 if neg && v.is_zero() {
